@@ -28,6 +28,7 @@ var mapRangeTargets = []string{"compiler/protogen", "cmd/protoc-gen-go/internal_
 type MapRangeSite struct {
 	File, Func, Expr, Shape string
 	Line                    int
+	PtrKey                  bool // the map is keyed by a pointer (iteration order and any key-derived order are address dependent)
 }
 
 type MapRangeNondet struct {
@@ -104,6 +105,28 @@ func mapRangeText(fset *token.FileSet, n ast.Node) string {
 type mapRangeCls struct {
 	info *types.Info
 	fset *token.FileSet
+	key  types.Object // the key variable of the range statement being classified
+}
+
+func (c *mapRangeCls) isRangeKey(e ast.Expr) bool {
+	id, ok := e.(*ast.Ident)
+	return ok && c.key != nil && (c.info.Uses[id] == c.key || c.info.Defs[id] == c.key)
+}
+
+func (c *mapRangeCls) ptrKey(e ast.Expr) bool {
+	tv, ok := c.info.Types[e]
+	if !ok || tv.Type == nil {
+		return false
+	}
+	m, ok := tv.Type.Underlying().(*types.Map)
+	if !ok {
+		return false
+	}
+	switch m.Key().Underlying().(type) {
+	case *types.Pointer, *types.Chan, *types.Interface:
+		return true
+	}
+	return false
 }
 
 func (c *mapRangeCls) isMap(e ast.Expr) bool {
@@ -247,7 +270,9 @@ func (c *mapRangeCls) stmt(s ast.Stmt, ef *mapRangeEffects) {
 		lhs, rhs := s.Lhs[0], s.Rhs[0]
 		switch l := lhs.(type) {
 		case *ast.IndexExpr:
-			if c.isMap(l.X) && s.Tok == token.ASSIGN && !mapRangeHasAppend(rhs) {
+			if c.isMap(l.X) && s.Tok == token.ASSIGN && !mapRangeHasAppend(rhs) && (c.isConst(rhs) || c.isRangeKey(l.Index)) {
+				// a set (constant value) or a map keyed by the range key itself: no two
+				// iterations write different values under one key
 				ef.kinds[mrMapInsert] = true
 			} else {
 				ef.kinds[mrOther] = true
@@ -345,6 +370,13 @@ func (c *mapRangeCls) sortedAfter(rest []ast.Stmt, s string) bool {
 
 func (c *mapRangeCls) classify(rs *ast.RangeStmt, rest []ast.Stmt) string {
 	ef := &mapRangeEffects{kinds: map[string]bool{}, slices: map[string]bool{}}
+	c.key = nil
+	if id, ok := rs.Key.(*ast.Ident); ok {
+		c.key = c.info.Defs[id]
+		if c.key == nil {
+			c.key = c.info.Uses[id]
+		}
+	}
 	c.stmt(rs.Body, ef)
 	switch {
 	case ef.kinds[mrOther]:
@@ -457,7 +489,7 @@ func MapRangeExtract(repo string) ([]MapRangeSite, []MapRangeNondet, []string, e
 						}
 						if rs, ok := st.(*ast.RangeStmt); ok && cls.isMap(rs.X) {
 							sites = append(sites, MapRangeSite{File: fname, Func: fn, Expr: mapRangeText(fset, rs.X),
-								Shape: cls.classify(rs, list[i+1:]), Line: fset.Position(rs.Pos()).Line})
+								Shape: cls.classify(rs, list[i+1:]), Line: fset.Position(rs.Pos()).Line, PtrKey: cls.ptrKey(rs.X)})
 						}
 						walk(st)
 					}
@@ -508,7 +540,7 @@ func MapRangeCoq(sites []MapRangeSite, nondet []MapRangeNondet) string {
 	b.WriteString("   map-typed expression, and one per syntactic source of nondeterminism. *)\n")
 	b.WriteString("From Coq Require Import List String NArith.\nImport ListNotations.\nOpen Scope string_scope.\n\n")
 	b.WriteString("Inductive shape := CollectThenSort | InsertIntoMapOrSet | OrderInsensitiveFold | ReturnError | Other.\n")
-	b.WriteString("Record site := mksite { s_file : string; s_line : N; s_func : string; s_expr : string; s_shape : shape }.\n")
+	b.WriteString("Record site := mksite { s_file : string; s_line : N; s_func : string; s_expr : string; s_shape : shape; s_ptrkey : bool }.\n")
 	b.WriteString("Record nondet := mknondet { n_file : string; n_line : N; n_func : string; n_kind : string; n_detail : string }.\n\n")
 	b.WriteString("Definition sites : list site := [\n")
 	for i, s := range sites {
@@ -516,7 +548,7 @@ func MapRangeCoq(sites []MapRangeSite, nondet []MapRangeNondet) string {
 		if i == len(sites)-1 {
 			sep = ""
 		}
-		fmt.Fprintf(&b, "  mksite %s %d%%N %s %s %s%s\n", mapRangeCoqString(s.File), s.Line, mapRangeCoqString(s.Func), mapRangeCoqString(s.Expr), s.Shape, sep)
+		fmt.Fprintf(&b, "  mksite %s %d%%N %s %s %s %v%s\n", mapRangeCoqString(s.File), s.Line, mapRangeCoqString(s.Func), mapRangeCoqString(s.Expr), s.Shape, s.PtrKey, sep)
 	}
 	b.WriteString("].\n\n(* go statements, select, time, rand, environment, %p, maps keyed by pointers *)\n")
 	b.WriteString("Definition nondet_sources : list nondet := [\n")
